@@ -14,4 +14,9 @@ META = {
         "design_ref": "DESIGN.md section 6 C19",
         "note": "Trusted: spec/ts29244_flags.json (hand transcription of the TS), engine as for C14. go-pfcp's IE constructors are executed symbolically, not stubbed.",
     },
+    "C04": {
+        "text": "One inductive step over the SEID table, decided by the solver: for every table shape within the bound that satisfies the representation invariant, each operation (lookup, allocation, deletion, node reset, remote lookup, Modification/Deletion request addressed by header SEID) is executed on the real code with unconstrained 64-bit SEID arguments; the invariant and the post-condition (found iff live, right session, no side effect on a miss, non-zero fresh id, release only after removal) are asserted afterwards. Histories of any length over tables of that size follow by induction.",
+        "design_ref": "DESIGN.md section 6 C04, Appendix F.2",
+        "note": "Trusted: the invariant I1-I4 is strong enough (checked executable on every pre-state), engine + z3, model data plane zzDP for the removal ordering. Bound: table length <= 3 (quick) / 4 (thorough), two control-plane nodes.",
+    },
 }
